@@ -214,6 +214,9 @@ class NpuStripe(Command):
         reversed_operands=False,
     ):
         self.ps = ps
+        # LUT slot to be used by this stripe; set by lut.optimize_high_level_cmd_stream. Stripes of one operation can
+        # use different slots when another LUT operation is scheduled between them
+        self.lut_index = None
         self.block_config = block_config
         self.is_first_h_stripe = is_first_h_stripe
         self.is_last_h_stripe = is_last_h_stripe
